@@ -566,6 +566,14 @@ pub fn put_ef_length(m: &mut [u8], at: usize, length: u16) {
     m[at + 2] = l[0];
     m[at + 3] = l[1];
 }
+/// Write the 23-byte draft identification at `at` without a loop (keeps harness unwind bounds small).
+pub fn put_draft_id(m: &mut [u8], at: usize) {
+    const D: &[u8; 23] = b"draft-ietf-ntp-ntpv5-09";
+    m[at] = D[0]; m[at + 1] = D[1]; m[at + 2] = D[2]; m[at + 3] = D[3]; m[at + 4] = D[4]; m[at + 5] = D[5];
+    m[at + 6] = D[6]; m[at + 7] = D[7]; m[at + 8] = D[8]; m[at + 9] = D[9]; m[at + 10] = D[10]; m[at + 11] = D[11];
+    m[at + 12] = D[12]; m[at + 13] = D[13]; m[at + 14] = D[14]; m[at + 15] = D[15]; m[at + 16] = D[16]; m[at + 17] = D[17];
+    m[at + 18] = D[18]; m[at + 19] = D[19]; m[at + 20] = D[20]; m[at + 21] = D[21]; m[at + 22] = D[22];
+}
 pub fn set_version_mode(m: &mut [u8], vn: u8, mode: u8) {
     m[0] = (m[0] & 0xC0) | (vn << 3) | mode;
 }
@@ -591,4 +599,58 @@ pub fn hasher_finish_model(h: &std::hash::DefaultHasher) -> u64 {
     x ^= x >> 16;
     x ^= x >> 8;
     x & 0xff
+}
+
+// ------------------------------------------------------------------ native witness (no solver)
+/// DESIGN section 5 / C15: an 80-byte NTPv4 datagram (first byte `b0`) = header + NTS-encrypted
+/// extension field (type 0x0404, length 32, nonce length 16, ciphertext length 8), no cookie
+/// field, everything else zero, from an allowed client, accepted versions {V4}, NTS not required.
+/// Returns the kind of the answer (None = ignored). Runs the real `Server::handle` in the
+/// daemon's call shape. Kani cannot execute this path within the 8 GB cap (1.47 M SSA steps for
+/// the policy half alone, then out of memory), so the witness is checked natively:
+/// `cargo test --release native_` in this crate (see the props file of C15).
+pub fn nts_undecryptable_native(b0: u8) -> Option<Kind> {
+    let mut msg = [0u8; 160];
+    msg[0] = b0;
+    put_ef_header(&mut msg, 48, 0x0404, 32);
+    msg[53] = 16;
+    msg[55] = 8;
+    let len = 80;
+    let all = Nets { v4_top: 0xffff, v6_top: 0xffff };
+    let none = Nets { v4_top: 0, v6_top: 0 };
+    let cfg = Cfg {
+        deny: none,
+        deny_action: FilterAction::Deny,
+        allow: all,
+        allow_action: FilterAction::Deny,
+        cache_size: 0,
+        cutoff: Duration::new(1, 0),
+        require_nts: None,
+        versions: [NtpVersion::V4; 3],
+        n_versions: 1,
+    };
+    let info = server_info(2, [127, 0, 0, 1], NtpDuration::from_exponent(-18), NtpDuration::ZERO, NtpLeapIndicator::NoWarning, tt::ts_from_raw(0));
+    let mut server = build_server(&cfg, SymClock { now: tt::ts_from_raw(0x1234_5678_0000_0000) }, info, zero_keyset());
+    let mut stats = RecStats::new();
+    let mut send_buf = [0u8; 256];
+    let act = server.handle(IpAddr::V4(Ipv4Addr::new(192, 0, 2, 1)), tt::ts_from_raw(0x1234_5677_0000_0000), &msg[..len], &mut send_buf[..len], &mut stats);
+    let out = outcome(&act);
+    assert!(stats.calls == 1);
+    out.kind
+}
+
+#[cfg(all(test, not(kani)))]
+mod native_tests {
+    use super::*;
+    #[test]
+    fn native_client_mode_gets_nak() {
+        assert_eq!(nts_undecryptable_native(0x23), Some(Kind::NakKiss));
+    }
+    /// Fails on the unchanged tree: a SERVER-mode (4) datagram is answered with an NTS NAK.
+    #[test]
+    fn native_nonclient_mode_is_ignored() {
+        for mode in [0u8, 1, 2, 4, 5, 6, 7] {
+            assert_eq!(nts_undecryptable_native(0x20 | mode), None, "mode {mode} datagram was answered");
+        }
+    }
 }
